@@ -161,6 +161,19 @@ def programs():
         add(f"pm_{m}_variable_pattern_invalid", False, "parser_method!", f"fn f(mut p: Parser<'_>, pat: &str) {{ parser_method!{{p, {m}; \"a\" | pat }} }}", items)
         add(f"pm_{m}_other_macro_pattern_invalid", False, "parser_method!", f"fn f(mut p: Parser<'_>) {{ parser_method!{{p, {m}; my_lit!() }} }}", items)
         add(f"pm_{m}_char_pattern_invalid", False, "parser_method!", f"fn f(mut p: Parser<'_>) {{ parser_method!{{p, {m}; 'a' }} }}", items)
+    # a non-literal in every position of the pattern grammar: later alternative, later branch, first / last / nested concat! argument
+    nonlits = [("const", "PAT"), ("variable", "pat"), ("other_macro", "my_lit!()"), ("env_macro", "env!(\"PATH\")")]
+    for m in ("strip_prefix", "rfind_skip"):
+        add(f"pm_{m}_nested_control", True, "parser_method!", f"fn f(mut p: Parser<'_>, pat: &str) -> u8 {{ let _ = pat; parser_method!{{p, {m}; \"a\" | \"b\" => 0, concat!(\"c\", concat!(\"d\", \"e\"), stringify!(f)) => 1, _ => 2 }} }}", items)
+        for tag, nl in nonlits:
+            for pos, pat in [("second_alternative", f"\"a\" | {nl} => 0, _ => 2"), ("second_branch", f"\"a\" => 0, {nl} => 1, _ => 2"),
+                             ("concat_first", f"concat!({nl}, \"c\") => 0, _ => 2"), ("concat_last", f"concat!(\"c\", {nl}) => 0, _ => 2"),
+                             ("concat_only", f"concat!({nl}) => 0, _ => 2"), ("concat_nested", f"concat!(\"c\", concat!(\"d\", {nl})) => 0, _ => 2"),
+                             ("concat_in_alternative", f"\"a\" | concat!(\"c\", {nl}) => 0, _ => 2")]:
+                add(f"pm_{m}_{tag}_{pos}_invalid", False, "parser_method!", f"fn f(mut p: Parser<'_>, pat: &str) -> u8 {{ let _ = pat; parser_method!{{p, {m}; {pat} }} }}", items)
+    for tag, nl in nonlits:
+        for pos, pat in [("second_alternative", f"\"a\" | {nl}"), ("concat_last", f"concat!(\"c\", {nl})"), ("concat_first", f"concat!({nl}, \"c\")")]:
+            add(f"pm_trim_start_matches_{tag}_{pos}_invalid", False, "parser_method!", f"fn f(mut p: Parser<'_>, pat: &str) {{ let _ = pat; parser_method!{{p, trim_start_matches; {pat} }} }}", items)
     add("pm_unknown_method_invalid", False, "parser_method!", "fn f(mut p: Parser<'_>) -> u8 { parser_method!{p, split; \"a\" => 0, _ => 2 } }", items)
     return P
 
